@@ -310,6 +310,11 @@ class FreeEnergy(InterpolatableFunction):
             min(eigsT0) * max(eigsT0) > 0
         ), "tracePhase error: unstable at starting temperature"
 
+        # smallest field scale of the potential, used to recognise jumps to another phase
+        fieldScale = np.min(
+            self.effectivePotential.derivativeSettings.fieldValueVariationScale
+        )
+
         def spinodalEvent(temperature: float, field: np.ndarray) -> float:
             if not spinodal:
                 return 1.0  # don't bother testing
@@ -358,6 +363,13 @@ class FreeEnergy(InterpolatableFunction):
                         ode.t,
                         tol=rTol * T0**3,
                     )
+                    # a minimum further from the ODE prediction than the step itself moved
+                    # (and than a tenth of the field scale) is not the traced minimum any
+                    # more: the phase has ended (spinodal)
+                    jump = np.linalg.norm(phaset[0] - ode.y)
+                    stepMoved = np.linalg.norm(ode.y - ode.y_old)
+                    if jump > max(stepMoved, 0.1 * fieldScale):
+                        break
                     ode.y = phaset[0]
                 if spinodalEvent(ode.t, ode.y) <= 0:
                     break
@@ -373,6 +385,13 @@ class FreeEnergy(InterpolatableFunction):
                                 tol=extraTol * T0**3,
                             )
                         )
+                        # a minimum further from the ODE prediction than the step itself moved
+                        # (and than a tenth of the field scale) is not the traced minimum any
+                        # more: the phase has ended (spinodal)
+                        jump = np.linalg.norm(phaset[0] - ode.y)
+                        stepMoved = np.linalg.norm(ode.y - ode.y_old)
+                        if jump > max(stepMoved, 0.1 * fieldScale):
+                            break
                         ode.y = phaset[0]
                     else:
                         # compute Veff
